@@ -185,6 +185,9 @@ def plan(tier):
             src.append(fact_shim('exp_%s_%s' % (op, tag), 'cnl::_impl::tag_of_t<decltype(%s{} %s %s{})>::exponent' % (A, sym, B)))
             jobs.append(fact_job(PROP, kname, 'exp_%s_%s' % (op, tag), want,
                                  'result exponent of %s %s %s is %s' % (A, sym, B, 'the sum of the exponents' if op == 'multiply' else 'the smaller exponent')))
+            # the result denotes rep x radix^exponent in the operands' radix (seed C01_3: a result type that silently falls back to radix 2)
+            src.append(fact_shim('radix_%s_%s' % (op, tag), 'cnl::_impl::tag_of_t<decltype(%s{} %s %s{})>::radix' % (A, sym, B)))
+            jobs.append(fact_job(PROP, kname, 'radix_%s_%s' % (op, tag), radix, 'result radix of %s %s %s is the operands\' radix' % (A, sym, B)))
             src.append(fact_shim('rep_%s_%s' % (op, tag), 'std::is_same_v<cnl::_impl::rep_of_t<decltype(%s{} %s %s{})>, %s>' % (A, sym, B, Res.cname)))
             jobs.append(fact_job(PROP, kname, 'rep_%s_%s' % (op, tag), 1, 'result rep is the promoted common type %s' % Res.name))
             jobs.append(Job('%s.L3.operator.%s.%s' % (PROP, op, tag), kname, P_L3, c_rel(0), replace=REPL_L3, layer=3, **common))
